@@ -286,7 +286,7 @@ impl Engine for C05 {
                 Phase::new("depth 1 from every fragment seed", json!({"step":1,"depth":1})),
                 Phase::new("depth 2 from every 30th fragment seed", json!({"step":30,"depth":2})),
                 Phase::new("depth 1 from every 2nd program of the kind-agnostic space (<= 2 constructors x 28 contexts)", json!({"step":2,"depth":1,"agnostic":true})),
-                Phase::new("corpus texts (48 hand-written programs, examples/): nine trivia tokens at every token boundary", json!({"corpus":true})),
+                Phase::new("corpus texts (50 hand-written programs, examples/): nine trivia tokens at every token boundary", json!({"corpus":true})),
             ],
             Tier::Thorough => vec![
                 Phase::new("depth 1 from every fragment seed", json!({"step":1,"depth":1})),
@@ -294,7 +294,7 @@ impl Engine for C05 {
                 Phase::new("depth 3 from every 400th fragment seed", json!({"step":400,"depth":3})),
                 Phase::new("depth 1 from every program of the kind-agnostic space (<= 2 constructors x 28 contexts)", json!({"step":1,"depth":1,"agnostic":true})),
                 Phase::new("depth 2 from every 10th program of the kind-agnostic space", json!({"step":10,"depth":2,"agnostic":true})),
-                Phase::new("corpus texts (48 hand-written programs, examples/): nine trivia tokens at every token boundary", json!({"corpus":true})),
+                Phase::new("corpus texts (50 hand-written programs, examples/): nine trivia tokens at every token boundary", json!({"corpus":true})),
             ],
         }
     }
